@@ -33,7 +33,7 @@ func VHarnessStorageLists() {
 	v.SqlSymRows(raw, "proofs", 1)
 	v.SqlSymRows(raw, "pending_proofs", 1)
 	v.SqlSymRows(raw, "blind_signatures", 1)
-	n := []int{1, 2, 1001}[v.Int("len", 0, 2)]
+	n := []int{1, 1000, 1001}[v.Int("len", 0, 2)]
 	// the request: Ys of n distinct concrete secrets (the stored rows carry y = Y(secret) of an arbitrary secret), n distinct B_ strings
 	ys := make([]string, n)
 	bs := make([]string, n)
